@@ -19,6 +19,8 @@ pub fn run_case(c: &Sx) -> Sx {
         "pipe" => pipe(v),
         "tok" => tok(v),
         "relayout" => relayout(v),
+        "parsetoks" => parsetoks(v),
+        "parsesrc" => parsesrc(v),
         "asciiclasses" => ascii_classes(),
         h => panic!("harness: unknown op {h}"),
     }
@@ -358,4 +360,97 @@ fn relayout(v: &[Sx]) -> Sx {
         (Err(_), Err(_)) => l(vec![a("same"), a("lexerr"), n(0)]),
         _ => l(vec![a("diff"), a("lexverdict"), b(ta.is_ok()), b(tb.is_ok())]),
     }
+}
+
+// ---------------------------------------------------------------------------------------- parser
+fn parse_result<'a>(r: Result<Term<'a>, Vec<Error>>, ranges: bool) -> Sx {
+    let hk = hooks_take();
+    match r {
+        Ok(t) => {
+            let mut e = Exporter::default();
+            e.ranges = ranges;
+            l(vec![a("ok"), e.term(&t, false), hk])
+        }
+        Err(es) => {
+            let mut r = vec![a("err"), n(es.len()), hk];
+            for e in &es {
+                r.push(a(&hex_encode(e.message.as_bytes())));
+            }
+            l(r)
+        }
+    }
+}
+
+// (parsetoks <tok> ...) where <tok> is a kind atom, (KIdentifier name) or (KIntegerLiteral dec):
+// the token list is laid out with single spaces and handed to parse() directly.
+fn parsetoks(v: &[Sx]) -> Sx {
+    use crate::error::SourceRange;
+    use crate::token::{TerminatorType, Token, Variant as V};
+    let mut src = String::new();
+    let mut spans = vec![];
+    for t in &v[1..] {
+        let text: String = match t {
+            Sx::A(k) => match k.as_str() {
+                "KAsterisk" => "*", "KBoolean" => "bool", "KColon" => ":", "KDoubleEquals" => "==", "KElse" => "else",
+                "KEquals" => "=", "KFalse" => "false", "KGreaterThan" => ">", "KGreaterThanOrEqualTo" => ">=", "KIf" => "if",
+                "KInteger" => "int", "KLeftCurly" => "{", "KLeftParen" => "(", "KLessThan" => "<", "KLessThanOrEqualTo" => "<=",
+                "KMinus" => "-", "KPlus" => "+", "KRightCurly" => "}", "KRightParen" => ")", "KSlash" => "/",
+                "KLineBreak" => "\n", "KSemicolon" => ";", "KThen" => "then", "KThickArrow" => "=>", "KThinArrow" => "->",
+                "KTrue" => "true", "KType" => "type",
+                _ => panic!("harness: token kind {k}"),
+            }
+            .to_owned(),
+            Sx::L(x) => x[1].atom().to_owned(),
+        };
+        if !src.is_empty() {
+            src.push(' ');
+        }
+        let st = src.len();
+        src.push_str(&text);
+        spans.push((st, src.len()));
+    }
+    let src: &'static str = Box::leak(src.into_boxed_str());
+    let mut toks = vec![];
+    for (t, (st, en)) in v[1..].iter().zip(spans) {
+        let variant = match t {
+            Sx::A(k) => match k.as_str() {
+                "KAsterisk" => V::Asterisk, "KBoolean" => V::Boolean, "KColon" => V::Colon, "KDoubleEquals" => V::DoubleEquals,
+                "KElse" => V::Else, "KEquals" => V::Equals, "KFalse" => V::False, "KGreaterThan" => V::GreaterThan,
+                "KGreaterThanOrEqualTo" => V::GreaterThanOrEqualTo, "KIf" => V::If, "KInteger" => V::Integer,
+                "KLeftCurly" => V::LeftCurly, "KLeftParen" => V::LeftParen, "KLessThan" => V::LessThan,
+                "KLessThanOrEqualTo" => V::LessThanOrEqualTo, "KMinus" => V::Minus, "KPlus" => V::Plus,
+                "KRightCurly" => V::RightCurly, "KRightParen" => V::RightParen, "KSlash" => V::Slash,
+                "KLineBreak" => V::Terminator(TerminatorType::LineBreak), "KSemicolon" => V::Terminator(TerminatorType::Semicolon),
+                "KThen" => V::Then, "KThickArrow" => V::ThickArrow, "KThinArrow" => V::ThinArrow, "KTrue" => V::True, "KType" => V::Type,
+                _ => unreachable!(),
+            },
+            Sx::L(x) => match x[0].atom() {
+                "KIdentifier" => V::Identifier(&src[st..en]),
+                "KIntegerLiteral" => V::IntegerLiteral(num_bigint::BigInt::parse_bytes(x[1].atom().as_bytes(), 10).expect("lit")),
+                k => panic!("harness: token {k}"),
+            },
+        };
+        toks.push(Token { source_range: SourceRange { start: st, end: en }, variant });
+    }
+    let toks: &'static [Token<'static>] = Box::leak(toks.into_boxed_slice());
+    let _ = hooks_take();
+    let r = parse(None, src, toks, &[]);
+    parse_result(r, true)
+}
+
+// (parsesrc x:<hex>): tokenize + parse; tokens are returned too so that the model parser runs on the same list
+fn parsesrc(v: &[Sx]) -> Sx {
+    let src = match String::from_utf8(hex_decode(v[1].atom())) {
+        Ok(s) => s,
+        Err(_) => return l(vec![a("notutf8")]),
+    };
+    let toks = match tokenize(None, &src) {
+        Ok(t) => t,
+        Err(es) => return errs("lexerr", &es),
+    };
+    let mut tl = vec![a("toks")];
+    tl.extend(toks.iter().map(token_sx));
+    let _ = hooks_take();
+    let r = parse(None, &src, &toks[..], &[]);
+    l(vec![a("parsed"), l(tl), parse_result(r, true)])
 }
